@@ -174,6 +174,9 @@ class ModelInterp(MiniEval):
                 return getattr(base, attr)
         if isinstance(base, Hook) and attr in base.attrs:
             return base.attrs[attr]
+        import types as _types
+        if type(base) is _types.SimpleNamespace and (attr == '__dict__' or (not attr.startswith('__') and attr in vars(base))):
+            return vars(base) if attr == '__dict__' else vars(base)[attr]  # a checker-supplied SimpleNamespace(**names)
         if isinstance(base, type) and base.__module__ == 'builtins' and attr in ('__name__', '__module__', '__qualname__'):
             return getattr(base, attr)
         if type(base) in (dict, list, tuple) and attr == '__getitem__':
